@@ -381,7 +381,12 @@ def _child(conn: t.Any, args: t.Tuple[t.Any, ...]) -> None:
     except BaseException:
         res = ShardResult(args[1], args[4], shard_seed(args[3], args[4]), 0, 0, {}, set(), {}, {}, [], [], 0.0, traceback.format_exc())
     try:
-        conn.send(res)
+        try:
+            conn.send(res)
+        except BaseException:
+            # (e.g. a case nested too deeply to pickle) - report it as a harness error instead of dying silently
+            conn.send(ShardResult(args[1], args[4], shard_seed(args[3], args[4]), 0, 0, {}, set(), {}, {}, [], [], 0.0,
+                                  "result could not be sent to the parent: " + traceback.format_exc()))
     finally:
         conn.close()
 
